@@ -60,6 +60,8 @@ def guard(fn):
             return fn(ctx)
         except (ModelError,) as e:
             return [Clause(fn.__name__, "undecided", "", "%s: %s" % (type(e).__name__, e))]
+        except RecursionError:
+            return [Clause(fn.__name__, "undecided", "", "engine limit: term construction exceeded the recursion limit")]
     run.__name__ = fn.__name__
     return run
 
